@@ -19,9 +19,27 @@ func init() { register(&Monitor{ID: "C17", Run: runC17, Self: selfC17}) }
 
 var c17Strs = []string{"", "a", "b", "ab", "abc", "abd", "B", "Z", "a ", " a", "é", "z", "zz", "aa", "\x00", "\xff", "~", string(rune(0x1f600)), "A", "0", "10", "9"}
 
+var c17Families = [][]string{
+	{"10", "9", "2", "100", "1", "20", "0", "33", "7"},                                                                 // all decimal numbers
+	{"-1", "-10", "+5", "5", "007", "7", "-0", "0", "12", "1e3", "1000"},                                               // signed / padded numbers
+	{"1.5", "1.25", "10.5", "2", "0.5", ".5", "1e1", "9.99"},                                                           // decimal fractions
+	{"file10", "file2", "file1", "file20", "file3", "file", "file100"},                                                 // natural-sort names
+	{"a", "B", "c", "D", "A", "b", "C", "d", "aa", "AA", "Aa"},                                                         // letter case
+	{"z", "aa", "b", "ccc", "dd", "a", "bbbb"},                                                                         // length-first
+	{"e", string(rune(0xe9)), "f", "E", "e" + string(rune(0x301)), "z", string(rune(0x17e)), string(rune(0xdf)), "ss"}, // collation / normalisation
+	{"2024-1-5", "2024-01-10", "2024-1-10", "2023-12-31", "2024-10-1"},                                                 // dates
+	{"true", "false", "null", "True", "0", "1", ""},                                                                    // literal look-alikes
+	{" a", "a", "a ", "\ta", "a\n", "A", "_a", "-a"},                                                                   // padding and punctuation
+	{"0x10", "0xA", "16", "0b11", "3", "1_000", "999"},                                                                 // other number spellings
+}
+
 func c17Values(r *rng.R, kind, n int) []any {
 	vals := make([]any, n)
 	small := r.Chance(1, 2) // small value range => many duplicates
+	themed := -1
+	if kind == 1 && r.Chance(1, 4) {
+		themed = r.Intn(len(c17Families))
+	}
 	for i := range vals {
 		switch kind {
 		case 0:
@@ -40,7 +58,12 @@ func c17Values(r *rng.R, kind, n int) []any {
 				}
 			}
 		case 1:
-			if small {
+			if themed >= 0 {
+				// whole list from one family in which bytewise order differs from numeric / natural / case-insensitive /
+				// length-first / collation order
+				fam := c17Families[themed]
+				vals[i] = fam[r.Intn(len(fam))]
+			} else if small {
 				vals[i] = c17Strs[r.Intn(6)]
 			} else if r.Chance(1, 4) {
 				vals[i] = spec.GenStr(r)
